@@ -140,7 +140,16 @@ impl ProgGen {
                         match &alt.op {
                             POp::Lit(w) => break IOp::Word(w.clone()),
                             POp::Param { ty: PType::Sub(sj), .. } => si = *sj,
-                            POp::Param { ty, .. } => break Self::canon(self.operand_expr(t, *ty, names, info, cur_global)),
+                            POp::Param { ty, .. } => {
+                                // v2: inside a sub-rule operand, a symbol named like a parameter of the ENCLOSING rule
+                                // (the text of the line is evaluated in the caller's context, not the rule's)
+                                let shadow: Vec<&String> = names.globals.iter().filter(|g| r.ops.iter().any(|o| matches!(&o.op, POp::Param { name, .. } if name == *g))).collect();
+                                if crate::engine::gen_version() >= 2 && !shadow.is_empty() && t.chance(1, 2) {
+                                    info.symbol_operands += 1;
+                                    break Self::canon(E::Var(shadow[t.below(shadow.len())].clone()));
+                                }
+                                break Self::canon(self.operand_expr(t, *ty, names, info, cur_global));
+                            }
                         }
                     }
                 }
